@@ -161,7 +161,7 @@ Lemma hpb_commit_iff cfg cm c : handle_peer_block cfg cm c = Commit <->
     (signed_power cm c <? cm_maj23 cm) = false /\ b_wellformed b = true /\ (b_net b =? n_net cfg) = true /\
     (v_height (c_view c) =? b_height b) = true /\ (b_height b =? n_height cfg) = true /\
     (b_header_hash b =? c_block_hash c) = true /\ (v_phase (c_view c) =? Phase_PRECOMMIT_VOTE) = true /\
-    b_applies b = true.
+    b_applies b = true /\ (v_root (c_view c) <? n_last_root cfg) = false.
 Proof.
   unfold handle_peer_block. split.
   - destruct (c_block c) as [b|]; destruct (c_results c) as [rh|]; cbv beta iota.
@@ -169,8 +169,8 @@ Proof.
     + repeat head_step.
     + repeat head_step.
     + repeat head_step.
-  - intros (b & rh & Hb & Hr & H1 & H2 & H3 & H4 & H5 & H6 & H7 & H8 & H9 & H10 & H11 & H12 & H13 & H14 & H15 & H16).
-    rewrite Hb, Hr. cbv beta iota. rewrite H1, H2, H3, H4, H5, H6, H7, H8, H9, H10, H11, H12, H13, H14, H15, H16.
+  - intros (b & rh & Hb & Hr & H1 & H2 & H3 & H4 & H5 & H6 & H7 & H8 & H9 & H10 & H11 & H12 & H13 & H14 & H15 & H16 & H17).
+    rewrite Hb, Hr. cbv beta iota. rewrite H1, H2, H3, H4, H5, H6, H7, H8, H9, H10, H11, H12, H13, H14, H15, H16, H17.
     reflexivity.
 Qed.
 Lemma not_commit_reject cfg cm c : handle_peer_block cfg cm c <> Commit -> handle_peer_block cfg cm c = Reject.
@@ -185,11 +185,11 @@ Theorem commit_gate_sound cfg cm c : committee_wf cm -> handle_peer_block cfg cm
     v_phase (c_view c) = Phase_PRECOMMIT_VOTE /\
     c_sigs c = map (fun i => (i, sign_payload c)) (signers cm c) /\
     2 * total_exact cm / 3 + 1 <= power_of cm (signers cm c) /\
-    b_applies b = true.
+    b_applies b = true /\ n_last_root cfg <= v_root (c_view c).
 Proof.
   intros Hwf H. apply hpb_commit_iff in H.
-  destruct H as (b & rh & Hb & Hr & H1 & H2 & H3 & H4 & H5 & H6 & H7 & H8 & H9 & H10 & H11 & H12 & H13 & H14 & H15 & H16).
-  apply N.eqb_eq in H2, H3, H4, H5, H11, H12, H13, H14, H15. apply N.ltb_ge in H9.
+  destruct H as (b & rh & Hb & Hr & H1 & H2 & H3 & H4 & H5 & H6 & H7 & H8 & H9 & H10 & H11 & H12 & H13 & H14 & H15 & H16 & H17).
+  apply N.eqb_eq in H2, H3, H4, H5, H11, H12, H13, H14, H15. apply N.ltb_ge in H9. apply N.ltb_ge in H17.
   apply sig_list_eqb_eq in H8. rewrite (signed_power_exact _ _ Hwf) in H9.
   destruct Hwf as (Ht & _ & Hm). rewrite Hm, Ht in H9.
   exists b, rh. repeat split; try assumption. congruence.
@@ -241,6 +241,14 @@ Proof.
   destruct H as (b & rh & Hb & Hr & H1 & H2 & H3 & H4 & H5 & H6 & H7 & H8 & H9 & H10 & H11 & H12 & H13 & H14 & H15 & H16).
   apply N.eqb_eq in H4, H5, H12, H13. destruct Hw as [Hw | [Hw | Hw]]; apply Hw; congruence.
 Qed.
+(* a certificate that names a root height older than the one the node's state last recorded (a 'historical committee': validators
+   that may hold no voting power any more) never commits, whatever it is signed by *)
+Theorem historical_committee_never_commits cfg cm c : v_root (c_view c) < n_last_root cfg -> handle_peer_block cfg cm c = Reject.
+Proof.
+  intros Hlt. apply not_commit_reject. intros H. apply hpb_commit_iff in H.
+  destruct H as (b & rh & Hb & Hr & H1 & H2 & H3 & H4 & H5 & H6 & H7 & H8 & H9 & H10 & H11 & H12 & H13 & H14 & H15 & H16 & H17).
+  apply N.ltb_ge in H17. lia.
+Qed.
 (* padding bits (bitmap positions >= committee size) neither add power nor change the verdict *)
 Theorem padding_irrelevant cfg cm c bits' :
   firstn (length (cm_power cm)) bits' = firstn (length (cm_power cm)) (c_bitmap c) ->
@@ -268,9 +276,11 @@ Theorem commit_gate_complete cfg cm c b rh : committee_wf cm ->
   v_phase (c_view c) = Phase_PRECOMMIT_VOTE -> b_applies b = true ->
   c_sigs c = map (fun i => (i, sign_payload c)) (signers cm c) ->
   2 * total_exact cm / 3 + 1 <= power_of cm (signers cm c) ->
+  n_last_root cfg <= v_root (c_view c) ->
   handle_peer_block cfg cm c = Commit.
 Proof.
-  intros Hwf H1 H2 Hb Hr H3 H4 H5 H6 H7 H8 H9 H10 H11 H12 H13 H14 H15 H16.
+  intros Hwf H1 H2 Hb Hr H3 H4 H5 H6 H7 H8 H9 H10 H11 H12 H13 H14 H15 H16 H17.
+  assert (Hrt : (v_root (c_view c) <? n_last_root cfg) = false) by (apply N.ltb_ge; exact H17).
   apply hpb_commit_iff. exists b, rh.
   assert (Hsp : (signed_power cm c <? cm_maj23 cm) = false).
   { apply N.ltb_ge. rewrite (signed_power_exact _ _ Hwf). destruct Hwf as (Ht & _ & Hm). rewrite Hm, Ht. exact H16. }
